@@ -164,14 +164,15 @@ class BezierCurve(BaseCurve):
         times = 0
         points = self.ctrlpoints
         # The error is evaluated with the points relative to the first one:
-        # in floats its rounding noise is about 1e-16 times their squared size
+        # in floats its rounding noise is about 1e-16 times their squared size,
+        # a reduction below 100 times that noise is accepted
         locals = tuple(point - points[0] for point in points)
         size2 = sum(point.inner(point) for point in locals)
         while degree - times > 1:
             _, materror = Operations.degree_decrease(degree, times + 1)
             # error is the square of the L2 distance between the curves
             error = np.dot(locals, np.dot(materror, locals))
-            if tolerance and error > max(tolerance**2, 1e-12 * size2):
+            if tolerance and error > max(tolerance**2, 1e-14 * size2):
                 break
             times += 1
         if times == 0:
